@@ -77,6 +77,114 @@ type pathState struct {
 	done    string // "", "return", "panic"
 	depth   int
 	rets    []retVal // values returned by the most recently inlined callee (constant-propagated where known)
+	sel     map[string]*selSet // subject expression -> the constants it can still equal on this path (value dispatch)
+	retStmt *ast.ReturnStmt    // the return statement of the interpreted function that ended this path
+	aliasE  map[string]aliasExpr // boolean locals that name a condition: the condition itself (valid while alias[name] == text)
+}
+
+type aliasExpr struct {
+	text string
+	e    ast.Expr
+}
+
+// selSet constrains a dispatch subject (an opcode, a kind, a type id, an event name): in is the set of constants
+// it equals (nil: unconstrained), out the constants it is known to differ from. Both a switch on the subject and
+// a chain of ==/!= tests refine it, so that the two spellings of a dispatch give the same paths.
+type selSet struct {
+	in, out map[string]string // canonical constant -> display label (Name=0x..)
+}
+
+func (s *selSet) clone() *selSet {
+	n := &selSet{out: map[string]string{}}
+	if s.in != nil {
+		n.in = map[string]string{}
+		for k, v := range s.in {
+			n.in[k] = v
+		}
+	}
+	for k, v := range s.out {
+		n.out[k] = v
+	}
+	return n
+}
+
+func (s *selSet) String() string {
+	var a []string
+	if s.in != nil {
+		for k := range s.in {
+			a = append(a, k)
+		}
+		sort.Strings(a)
+		return "in{" + strings.Join(a, ",") + "}"
+	}
+	for k := range s.out {
+		a = append(a, k)
+	}
+	sort.Strings(a)
+	return "out{" + strings.Join(a, ",") + "}"
+}
+
+func (s *pathState) selOf(subj string) *selSet {
+	if s.sel == nil {
+		s.sel = map[string]*selSet{}
+	}
+	if x, ok := s.sel[subj]; ok {
+		return x
+	}
+	x := &selSet{out: map[string]string{}}
+	s.sel[subj] = x
+	return x
+}
+
+// selected returns the display labels (constant names) the subject with the given suffix is restricted to on
+// this path; ok=false when the path does not restrict it to a finite set (the "anything else" path).
+func (s *pathState) selected(suffix string) (names []string, ok bool) {
+	var keys []string
+	for k := range s.sel {
+		keys = append(keys, k)
+	}
+	sort.Strings(keys)
+	for _, k := range keys {
+		if !strings.HasSuffix(k, suffix) || s.sel[k].in == nil {
+			continue
+		}
+		for _, lbl := range s.sel[k].in {
+			names = append(names, strings.SplitN(lbl, "=", 2)[0])
+		}
+		sort.Strings(names)
+		return names, true
+	}
+	return nil, false
+}
+
+// excluded: the labels the subject is known to differ from on this path.
+func (s *pathState) excluded(suffix string) (names []string) {
+	for k, x := range s.sel {
+		if strings.HasSuffix(k, suffix) && x.in == nil {
+			for _, lbl := range x.out {
+				names = append(names, strings.SplitN(lbl, "=", 2)[0])
+			}
+		}
+	}
+	sort.Strings(names)
+	return
+}
+
+func (s *pathState) killSel(name string) {
+	for k := range s.sel {
+		if mentions(k, name) {
+			delete(s.sel, k)
+		}
+	}
+}
+
+func (s *pathState) selStr() string {
+	var ks []string
+	for k, v := range s.sel {
+		ks = append(ks, k+":"+v.String())
+	}
+	sort.Strings(ks)
+	return strings.Join(ks, " ")
 }
 
 type retVal struct {
@@ -100,6 +208,19 @@ func (s *pathState) clone() *pathState {
 	}
 	n.trace = append([]TraceItem{}, s.trace...)
 	n.rets = append([]retVal{}, s.rets...)
+	if len(s.sel) > 0 {
+		n.sel = map[string]*selSet{}
+		for k, v := range s.sel {
+			n.sel[k] = v.clone()
+		}
+	}
+	n.retStmt = s.retStmt
+	if len(s.aliasE) > 0 {
+		n.aliasE = map[string]aliasExpr{}
+		for k, v := range s.aliasE {
+			n.aliasE[k] = v
+		}
+	}
 	return n
 }
 
@@ -173,6 +294,9 @@ func (tr *tracer) evalBool(info *types.Info, e ast.Expr, st *pathState) []boolCo
 			return []boolCont{{st, st.store[x.Name] != 0}}
 		}
 		if a, ok := st.alias[x.Name]; ok {
+			if ae, has := st.aliasE[x.Name]; has && ae.text == a {
+				return tr.evalBool(info, ae.e, st)
+			}
 			switch a {
 			case "true":
 				return []boolCont{{st, true}}
@@ -286,9 +410,76 @@ func (tr *tracer) evalBool(info *types.Info, e ast.Expr, st *pathState) []boolCo
 					return []boolCont{{st, cmpInt(st.store[id.Name], x.Op, k)}}
 				}
 			}
+			// value dispatch: subject == constant / subject != constant
+			if x.Op == token.EQL || x.Op == token.NEQ {
+				if subj, canon, label, ok := tr.selOperands(info, x, st); ok {
+					return tr.selTest(subj, canon, label, st, x.Op == token.EQL)
+				}
+			}
 		}
 	}
 	return tr.atom(st.resolve(normAtom(e)), st, true)
+}
+
+// selOperands: x compares a non-constant subject with an integer or string constant.
+func (tr *tracer) selOperands(info *types.Info, x *ast.BinaryExpr, st *pathState) (subj, canon, label string, ok bool) {
+	side, c := x.X, x.Y
+	if _, isC := info.Types[ast.Unparen(x.X)]; isC && info.Types[ast.Unparen(x.X)].Value != nil {
+		side, c = x.Y, x.X
+	}
+	canon, label, ok = constLabel(info, c)
+	if !ok {
+		return "", "", "", false
+	}
+	if tv, has := info.Types[ast.Unparen(side)]; has && tv.Value != nil {
+		return "", "", "", false
+	}
+	if isNil(info, c) {
+		return "", "", "", false
+	}
+	subj = st.resolve(normAtom(stripAllConv(info, side)))
+	return subj, canon, label, true
+}
+
+// constLabel: canonical text and display label of a case / comparison constant.
+func constLabel(info *types.Info, e ast.Expr) (canon, label string, ok bool) {
+	if k, isK := constInt(info, e); isK {
+		canon = fmt.Sprintf("0x%x", k)
+		return canon, fmt.Sprintf("%s=%s", exprStr(e), canon), true
+	}
+	if sv, isS := constString(info, e); isS {
+		canon = fmt.Sprintf("%q", sv)
+		return canon, canon, true
+	}
+	return "", "", false
+}
+
+// selTest decides or forks on `subject == constant`. The path also records the equivalent boolean atom
+// ("subj == Label"), so that rules can ask for it by name.
+func (tr *tracer) selTest(subj, canon, label string, st *pathState, isEq bool) []boolCont {
+	ss := st.selOf(subj)
+	atom := subj + " == " + strings.SplitN(label, "=", 2)[0]
+	if ss.in != nil {
+		if _, has := ss.in[canon]; !has {
+			return []boolCont{{st, !isEq}}
+		}
+		if len(ss.in) == 1 {
+			return []boolCont{{st, isEq}}
+		}
+	} else if _, no := ss.out[canon]; no {
+		return []boolCont{{st, !isEq}}
+	}
+	t, f := st.clone(), st.clone()
+	t.selOf(subj).in = map[string]string{canon: label}
+	t.assume[atom] = true
+	fs := f.selOf(subj)
+	if fs.in != nil {
+		delete(fs.in, canon)
+	} else {
+		fs.out[canon] = label
+	}
+	f.assume[atom] = false
+	return []boolCont{{t, isEq}, {f, !isEq}}
 }
 
 // resolve rewrites identifiers that are aliases (copies of len(x), inlined parameters) in an atom.
@@ -470,6 +661,9 @@ func (tr *tracer) execStmt(fi *FuncInfo, s ast.Stmt, st *pathState) []*pathState
 			states = tr.execExpr(fi, r, states)
 		}
 		for _, s2 := range states {
+			for _, l := range x.Lhs {
+				s2.killSel(normAtom(l))
+			}
 			fromCallee := false
 			if len(x.Rhs) == 1 && len(s2.rets) == len(x.Lhs) {
 				if c, ok := ast.Unparen(x.Rhs[0]).(*ast.CallExpr); ok {
@@ -516,7 +710,9 @@ func (tr *tracer) execStmt(fi *FuncInfo, s ast.Stmt, st *pathState) []*pathState
 	case *ast.IncDecStmt:
 		if id, ok := x.X.(*ast.Ident); ok {
 			delete(st.known, id.Name)
+			delete(st.alias, id.Name)
 		}
+		st.killSel(normAtom(x.X))
 		return []*pathState{st}
 	case *ast.IfStmt:
 		states := []*pathState{st}
@@ -586,6 +782,9 @@ func (tr *tracer) execStmt(fi *FuncInfo, s ast.Stmt, st *pathState) []*pathState
 			}
 			if s2.done == "" {
 				s2.done = "return"
+				if s2.depth == 0 {
+					s2.retStmt = x
+				}
 				// returning a freshly built error: mark
 				for _, r := range x.Results {
 					if c, ok := ast.Unparen(r).(*ast.CallExpr); ok {
@@ -724,23 +923,74 @@ func (tr *tracer) execStmt(fi *FuncInfo, s ast.Stmt, st *pathState) []*pathState
 				}
 			}
 			hasDefault := false
+			// value dispatch: the clauses refine what the tag can equal (same bookkeeping as ==/!= tests)
+			subj := ""
+			allConst := x.Tag != nil
+			type lab struct{ canon, label string }
+			var allLabels []lab
+			if x.Tag != nil {
+				subj = s0.resolve(normAtom(stripAllConv(info, x.Tag)))
+				for _, cl := range x.Body.List {
+					for _, e := range cl.(*ast.CaseClause).List {
+						if c, l, ok := constLabel(info, e); ok {
+							allLabels = append(allLabels, lab{c, l})
+						} else {
+							allConst = false
+						}
+					}
+				}
+			}
+			// rest: the state in which no clause label matched
+			restrict := func(n *pathState) bool {
+				if !allConst {
+					return true
+				}
+				ss := n.selOf(subj)
+				for _, l := range allLabels {
+					if ss.in != nil {
+						delete(ss.in, l.canon)
+					} else {
+						ss.out[l.canon] = l.label
+					}
+				}
+				return ss.in == nil || len(ss.in) > 0
+			}
 			for _, cl := range x.Body.List {
 				cc := cl.(*ast.CaseClause)
 				n := s0.clone()
 				if cc.List == nil {
 					hasDefault = true
+					if !restrict(n) {
+						continue
+					}
 					n.assume["switch:"+exprStr(x.Tag)] = true
 					n.trace = append(n.trace, TraceItem{Prim: "case", Arg: "default", Pos: cc.Pos()})
 				} else {
 					var labels []string
+					feasible := map[string]string{}
 					for _, e := range cc.List {
-						if k, ok := constInt(info, e); ok {
-							labels = append(labels, fmt.Sprintf("%s=0x%x", exprStr(e), k))
-						} else if sv, ok := constString(info, e); ok {
-							labels = append(labels, fmt.Sprintf("%q", sv))
+						if c, l, ok := constLabel(info, e); ok {
+							if allConst {
+								ss := n.selOf(subj)
+								if ss.in != nil {
+									if _, has := ss.in[c]; !has {
+										continue
+									}
+								} else if _, no := ss.out[c]; no {
+									continue
+								}
+								feasible[c] = l
+							}
+							labels = append(labels, l)
 						} else {
 							labels = append(labels, exprStr(e))
 						}
+					}
+					if allConst {
+						if len(feasible) == 0 {
+							continue
+						}
+						n.selOf(subj).in = feasible
 					}
 					n.trace = append(n.trace, TraceItem{Prim: "case", Arg: strings.Join(labels, ","), Pos: cc.Pos()})
 				}
@@ -748,8 +998,10 @@ func (tr *tracer) execStmt(fi *FuncInfo, s ast.Stmt, st *pathState) []*pathState
 			}
 			if !hasDefault && x.Tag != nil {
 				n := s0.clone()
-				n.trace = append(n.trace, TraceItem{Prim: "case", Arg: "none", Pos: x.Pos()})
-				out = append(out, n)
+				if restrict(n) {
+					n.trace = append(n.trace, TraceItem{Prim: "case", Arg: "none", Pos: x.Pos()})
+					out = append(out, n)
+				}
 			}
 		}
 		return out
@@ -820,6 +1072,17 @@ func (tr *tracer) assign(info *types.Info, lhs ast.Expr, rhs ast.Expr, tok token
 		if c, ok := rhs.(*ast.CallExpr); ok && exprStr(c.Fun) == "len" && len(c.Args) == 1 {
 			st.alias[id.Name] = st.resolve(normAtom(rhs))
 		}
+		// a local copy of a variable / field path (head := f.header; flags := head.flags) stands for that path
+		if rid, ok := rhs.(*ast.Ident); ok && st.known[rid.Name] {
+			st.known[id.Name], st.store[id.Name] = true, st.store[rid.Name]
+			return
+		}
+		if isFieldPath(rhs) && !isNil(info, rhs) {
+			if a := st.resolve(normAtom(rhs)); !mentions(a, id.Name) {
+				st.alias[id.Name] = a
+			}
+			return
+		}
 		// a boolean whose value is decided on this path (a protocol-version comparison, a test of a known flag)
 		if t := info.TypeOf(rhs); t != nil {
 			if bt, ok := t.Underlying().(*types.Basic); ok && bt.Info()&types.IsBoolean != 0 {
@@ -839,6 +1102,12 @@ func (tr *tracer) assign(info *types.Info, lhs ast.Expr, rhs ast.Expr, tok token
 						st.alias[id.Name] = bit
 					} else {
 						st.alias[id.Name] = st.resolve(normAtom(rhs))
+						if !mentions(exprStr(rhs), id.Name) {
+							if st.aliasE == nil {
+								st.aliasE = map[string]aliasExpr{}
+							}
+							st.aliasE[id.Name] = aliasExpr{st.alias[id.Name], rhs}
+						}
 					}
 				}
 			}
@@ -849,14 +1118,17 @@ func (tr *tracer) assign(info *types.Info, lhs ast.Expr, rhs ast.Expr, tok token
 			return
 		}
 		delete(st.known, id.Name)
+		delete(st.alias, id.Name)
 	case token.AND_NOT_ASSIGN:
 		if k, ok := constInt(info, rhs); ok && st.known[id.Name] {
 			st.store[id.Name] &^= k
 			return
 		}
 		delete(st.known, id.Name)
+		delete(st.alias, id.Name)
 	default:
 		delete(st.known, id.Name)
+		delete(st.alias, id.Name)
 	}
 }
 
@@ -1032,7 +1304,7 @@ func dedupStates(in []*pathState) []*pathState {
 	seen := map[string]bool{}
 	var out []*pathState
 	for _, s := range in {
-		k := assumeStr(s) + "|" + traceStr(s.trace) + "|" + s.done
+		k := assumeStr(s) + "|" + traceStr(s.trace) + "|" + s.done + "|" + s.selStr()
 		if !seen[k] {
 			seen[k] = true
 			out = append(out, s)
@@ -1160,4 +1432,15 @@ func (tr *tracer) recordBufCall(fi *FuncInfo, c *ast.CallExpr, st *pathState) {
 	for i := 0; i < w; i++ {
 		st.trace = append(st.trace, TraceItem{Prim: "store", Off: int(off) + i, Bytes: []ByteItem{{Base: v, Shift: 8 * (w - 1 - i)}}, Pos: c.Pos()})
 	}
+}
+
+// isFieldPath: an identifier or a chain of field selections on one.
+func isFieldPath(e ast.Expr) bool {
+	switch x := ast.Unparen(e).(type) {
+	case *ast.Ident:
+		return x.Name != "true" && x.Name != "false" && x.Name != "nil" && x.Name != "_"
+	case *ast.SelectorExpr:
+		return isFieldPath(x.X)
+	}
+	return false
 }
